@@ -586,8 +586,88 @@ def mk_expand(n):
     return check
 
 
+# ---------------------------------------------------------------- LogDet / paralinear (LAPACK det / inv: concrete runs only)
+def mk_logdet(which, r):
+    """_paralinear / _logdet (with and without the Tamura-Kumar adjustment) on an r x r matrix of SMALL POSITIVE INTEGER counts:
+    the matrix is one mixed-radix symbolic integer, realised up front (det / inv are LAPACK calls), the body runs untraced on
+    floats and is compared (1e-9 relative) with the published formula evaluated independently: exact rational determinant
+    (Fractions, Leibniz expansion), math.log. Floating point, so this is bounded exhaustive checking of the formula's structure
+    (coefficients, which frequencies, which r), not of its numerical behaviour."""
+    import itertools as _it
+    import math
+    from fractions import Fraction
+
+    HI = 3 if r == 2 else 2
+    NSYM = r * r if r == 2 else r * (r - 1)  # r = 3: the six off-diagonal counts are symbolic, the diagonal is fixed
+    TOTAL = HI**NSYM
+
+    def det_exact(M):
+        n = len(M)
+        tot = Fraction(0)
+        for perm in _it.permutations(range(n)):
+            sign = 1
+            for i in range(n):
+                for j in range(i + 1, n):
+                    if perm[i] > perm[j]:
+                        sign = -sign
+            term = Fraction(sign)
+            for i in range(n):
+                term *= M[i][perm[i]]
+            tot += term
+        return tot
+
+    def check(code: int) -> bool:
+        """
+        pre: 0 <= code < TOTAL
+        post: _
+        """
+        _ = TOTAL
+        code, untraced = W.concrete(code)
+        with untraced:
+            return body(code)
+
+    def body(code):
+        from cogent3.evolve import fast_distance as FD
+
+        cells = []
+        for _i in range(NSYM):
+            cells.append(code % HI + 1)
+            code //= HI
+        it = iter(cells)
+        # matches dominate, as in real alignments
+        J = [[(next(it) + 4 if r == 2 else 5 + i) if i == j else next(it) for j in range(r)] for i in range(r)]
+        tot = sum(sum(row) for row in J)
+        F = [[Fraction(x, tot) for x in row] for row in J]
+        fx = [sum(F[i][j] for j in range(r)) for i in range(r)]  # row sums
+        fy = [sum(F[i][j] for i in range(r)) for j in range(r)]  # column sums
+        dF = det_exact(F)
+        if not W.reach("end"):
+            return False
+        if dF <= 0:
+            return True
+        prod = 1.0
+        for a_, b_ in zip(fx, fy):
+            prod *= float(a_) * float(b_)
+        m = numpy.array(J, dtype=float)
+        if which == "paralinear":
+            got = FD._paralinear(m)[2]
+            want = -math.log(float(dF) / math.sqrt(prod)) / r
+        elif which == "logdet_tk":
+            got = FD._logdet(m, use_tk_adjustment=True)[2]
+            g2 = sum(float((a_ + b_) / 2) ** 2 for a_, b_ in zip(fx, fy))
+            want = -((1 - g2) / (r - 1)) * math.log(float(dF) / math.sqrt(prod))
+        else:
+            got = FD._logdet(m, use_tk_adjustment=False)[2]
+            want = -math.log(float(dF)) / r - math.log(r)
+        if got is None:
+            return False
+        return abs(float(got) - want) <= 1e-9 * max(1.0, abs(want))
+
+    return check
+
+
 ENCODED = [
-    ("src/cogent3/evolve/fast_distance.py", ["_hamming", "_jc69_from_matrix", "_tn93_from_matrix", "TN93Pair.__init__ (index tables, concrete)", "_PairwiseDistance._expand"]),
+    ("src/cogent3/evolve/fast_distance.py", ["_hamming", "_jc69_from_matrix", "_tn93_from_matrix", "TN93Pair.__init__ (index tables, concrete)", "_PairwiseDistance._expand", "_logdetcommon", "_paralinear", "_logdet (distance, both adjustments)"]),
     ("src/cogent3/phylo/nj.py", ["PartialTree.get_dist_saved_join_score_matrix", "PartialTree.join", "PartialTree.asScoreTreeTuple", "LightweightTreeNode.convert"]),
     ("src/cogent3/cluster/UPGMA.py", ["UPGMA_cluster", "find_smallest_index", "condense_matrix", "condense_node_order"]),
 ]
@@ -604,7 +684,7 @@ ASSUMPTIONS = [
     "NJ induction: the chosen pair is the first off-diagonal entry in ascending score order; proving cherry-minimality + exact join for every shape with <= N tips gives topology and lengths for trees with <= N tips",
     "UPGMA: strict parent > child heights (positive branch lengths); heights < 1e9 << BIG_NUM",
 ]
-OUTSIDE = ["_paralinear / _logdet (LAPACK det / inv)", "numba pairwise counting kernels", "gnj with keep > 1 (argsort tie handling)", "float rounding and exact ties in floats", "_fill_diversity_matrix and the detection of duplicates in run() (numpy comparisons on count matrices); the expansion of the table to the duplicates IS covered"]
+OUTSIDE = ["_paralinear / _logdet on symbolic counts (LAPACK det / inv): only bounded-exhaustive concrete runs on 2x2 and 3x3 count matrices, compared with the published formulas in floats; their variances; 4- and 21-state matrices", "numba pairwise counting kernels", "gnj with keep > 1 (argsort tie handling)", "float rounding and exact ties in floats", "_fill_diversity_matrix and the detection of duplicates in run() (numpy comparisons on count matrices); the expansion of the table to the duplicates IS covered"]
 TRUSTED = ["vlib/psx.py", "the published formulas as written in props/c15.py"]
 
 
@@ -617,6 +697,9 @@ def obligations(tier):
         for s in _binary_unrooted(n):
             obs.append(Ob(f"nj_step/{s['id']}", __name__, "mk_nj_step", {"shape_id": s["id"], "n": n}, kind="direct", timeout=900, group="nj"))
     obs.append(Ob("nj_final_three", __name__, "mk_nj_final", {}, kind="direct", timeout=300, group="nj"))
+    for which in ("paralinear", "logdet_tk", "logdet"):
+        for r in (2, 3):
+            obs.append(Ob(f"estimator/{which}/r{r}", __name__, "mk_logdet", {"which": which, "r": r}, timeout=1200, group="estimators"))
     for n in (3, 4, 5):
         obs.append(Ob(f"expand_duplicates/n{n}", __name__, "mk_expand", {"n": n}, timeout=900, twins=("end", "two_duplicates") if n > 3 else ("end", "two_duplicates"), group="duplicates"))
     for n in ([3, 4, 5] if T else [3, 4]):
